@@ -71,6 +71,13 @@ def run(ctx) -> None:
     tooltables.tool_tables(Relabel(ctx, "R08.7"), "R08.7", ("yields", "items taken", "end"))
     ctx.rule("R08.8", "merge takes the next head of a source only after it has yielded the current one (R05.3, shared)")
     c05.r05_3(Relabel(ctx, "R08.8"))
+    from . import c04, c16
+    ctx.rule("R08.9", "a groupby group the parent has moved past ends without touching the shared iterator (R16.1, shared)")
+    if c16.cursor_is_single_slot(ctx, "R08.9"):
+        c16.r16_1_3_group(Relabel(ctx, "R08.9", only=("R16.1",)), c16.Names(ctx))
+    ctx.rule("R08.10", "a finishing tee child unregisters its own buffer (by identity) and only the last one closes the shared "
+                       "iterator (R04.5, shared)")
+    c04.r04_5(Relabel(ctx, "R08.10"))
 
 
 def _field_writes(unit, fld: str):
